@@ -471,6 +471,21 @@ impl Session {
                     },
                 }
             },
+            ["evalrename", slot, suffix, src] => {
+                let suffix = unx(suffix);
+                self.log.lock().unwrap().clear();
+                let mut n = match build_operator_tree::<DefaultNumericTypes>(&unx(src)) {
+                    Ok(n) => n,
+                    Err(e) => return format!("err {} ; ", enc_err(&e)),
+                };
+                n.iter_variable_identifiers_mut().for_each(|s| s.push_str(&suffix));
+                let r = match self.slots.get_mut(&slot.parse().unwrap()) {
+                    Some(Slot::Hm(c)) => n.eval_with_context_mut(c),
+                    _ => return "bad-op".into(),
+                };
+                let log: Vec<String> = self.log.lock().unwrap().iter().map(|(n, v)| format!("{}:{}", hex(n.as_bytes()), enc_value(v))).collect();
+                format!("{} ; {}", enc_res(&r, enc_value), log.join(","))
+            },
             ["f64parse", w] => match unx(w).parse::<f64>() {
                 Ok(f) => {
                     if f.is_nan() {
